@@ -158,6 +158,10 @@ unit("ws.send", ["C12", "C10", "C06"], "units/ws.c", entry="h_ws_send", function
 # with permessage-deflate not negotiated the decompression helpers must be unreachable: assert(false) bodies
 WS_NO_DEFLATE = ["--remove-function-body", "private_decompress", "--remove-function-body", "reassemble", "--remove-function-body", "websocket_compress",
                  "--generate-function-body", "private_decompress|reassemble|websocket_compress", "--generate-function-body-options", "assert-false-assume-false"]
+unit("ext.offer", ["C19", "C06"], "units/ws.c", entry="h_ext_offer", functions=["check_websocket_extensions", "fill_requested_extension", "write_to_response"], kind="bounded",
+     bound="Sec-WebSocket-Extensions values of <= 48 bytes, every content", expect_tags=["C19.ext.response-fits-its-buffer"], timeout=900, tier="thorough",
+     **dict(WS_COMMON, unwind=50, goto_instrument_args=["--remove-function-body", "alloc_compression", "--value-set-fi-fp-removal"], flags=[]), allow_no_body=["alloc_compression"],
+     assumes=["alloc_compression (zlib deflateInit/inflateInit) cut off", "isspace: C-locale model", "realloc: cbmc model (may not fail)"])
 for _d in (1, 0):
     unit("ws.frame.%s" % ("daemon-callbacks" if _d else "any-callbacks"), ["C12", "C06"], "units/ws.c", entry="h_ws_frame",
          functions=["ws_handle_frame", "is_status_code_invalid", "handle_error", "websocket_close", "websocket_send_pong_frame", "websocket_send_close_frame",
@@ -237,11 +241,11 @@ CJ_ASSUME = ["cJSON: executable model stubs/cjson_model.h (assumed contract of t
 for _h, _fns in (("error", ["create_error_response", "create_error_object", "create_common_response", "add_subobject_to_object"]),
                  ("result", ["create_result_response", "create_common_response"]),
                  ("from_request", ["create_error_response_from_request", "create_success_response_from_request", "create_result_response_from_request"])):
-    unit("resp." + _h, ["C02"], "units/resp.c", entry="h_resp_" + _h, functions=_fns, unwind=20, solver="cadical",
+    unit("resp." + _h, ["C02"], "units/resp.c", entry="h_resp_" + _h, functions=_fns, unwind=20, cbmc_unwindset=CJ_UNWIND, solver="cadical",
          kind="proof", bound="id strings <= 3 characters; every id type and every double; string literals <= 24 characters",
          flags=["--memory-leak-check"], timeout=300, assumes=CJ_ASSUME)
-    unit("resp.%s.allocfail" % _h, ["C15"], "units/resp.c", entry="h_resp_" + _h, functions=_fns, unwind=20, solver="cadical",
-         defines=["RESP_FAIL=1"], tier="thorough", kind="proof", bound="as resp.%s; every subset of allocations fails" % _h,
+    unit("resp.%s.allocfail" % _h, ["C15"], "units/resp.c", entry="h_resp_" + _h, functions=_fns, unwind=20, cbmc_unwindset=CJ_UNWIND, mem_gb=30, solver="cadical",
+         defines=["RESP_FAIL=1"], kind="proof", bound="as resp.%s; every subset of allocations fails" % _h,
          flags=["--memory-leak-check"], timeout=300, assumes=CJ_ASSUME)
 
 unit("rpc.dispatch", ["C02", "C06"], "units/u_rpc.c", entry="h_rpc_dispatch", functions=["parse_json_rpc", "handle_method", "send_response", "process_fetch"], unwind=16, cbmc_unwindset=CJ_UNWIND + ["cJSON_GetObjectItem.0:6", "cj_name_eq_nocase.0:9"], solver="cadical",
@@ -265,6 +269,9 @@ for _sh, _nm in ((0, "none"), (1, "p"), (2 | 8, "pq")):
     unit("el.add." + _nm, ["C04", "C01", "C08", "C14", "C02", "C06"], "units/u_element.c", entry="h_el_add", defines=["EL_SHAPE=%d" % _sh],
          functions=["add_element_to_peer", "init_element", "alloc_element", "fill_access", "get_path_from_params", "get_fetch_only_from_params"],
          expect_tags=["C04.add.refused-request-changes-nothing", "C04.add.new-element-indexed-under-its-path-owned-by-the-requester"], **EL_COMMON)
+for _sh, _nm in ((0, "none"), (1, "p")):
+    unit("el.add.%s.allocfail" % _nm, ["C15"], "units/u_element.c", entry="h_el_add", defines=["EL_SHAPE=%d" % _sh, "EL_ALLOC_FAIL=1"], tier="thorough", shared_tags=True,
+         functions=["add_element_to_peer", "init_element"], expect_tags=["C04.add.refused-request-changes-nothing"], **EL_COMMON)
 EL_SHAPES = [(0, "none"), (1, "p"), (1 | 4, "q"), (2, "pp"), (2 | 4, "qp"), (2 | 8, "pq"), (2 | 12, "qq")]
 for _sh, _nm in EL_SHAPES:
     if _sh != 0:
@@ -325,7 +332,7 @@ unit("peer.teardown", ["C05", "C01", "C07", "C06"], "units/u_peer.c", entry="h_p
 unit("peer.log", ["C06"], "units/u_peer.c", entry="h_peer_log", functions=["log_peer_err", "log_peer_info", "get_peer_name"], unwind=4, solver="cadical",
      expect_tags=["C06.log.size-fits-remaining-buffer"], timeout=120,
      assumes=["snprintf/vsnprintf: write at most `size` bytes, return the would-be length (any value >= 0)"])
-unit("auth.handle", ["C08", "C07", "C06"], "units/u_auth.c", entry="h_auth_handle", functions=["handle_authentication", "get_params"], unwind=14, solver="cadical",
+unit("auth.handle", ["C08", "C07", "C15", "C06"], "units/u_auth.c", entry="h_auth_handle", functions=["handle_authentication", "get_params"], unwind=14, solver="cadical",
      kind="proof", bound="every member shape of params (missing / mistyped user and password), every subset of the user's group lists, allocation of the user name may fail",
      flags=["--memory-leak-check"], expect_tags=["C08.auth.failed-authentication-changes-nothing", "C08.auth.success-assigns-exactly-the-users-groups", "C08.auth.password-never-appears-in-a-response"], timeout=300,
      assumes=CJ_ASSUME + ["credentials_ok / get_groups / response builders: stubs; password flow is tracked at pointer level only (copies are not tracked)"])
@@ -539,5 +546,14 @@ PROPERTY_META["C13"] = {
     "level_note": ("http_parser internals, header-block handling in websocket.c (key, version 13, sub-protocol), over-long lines (thorough tier: bs.start) and descriptor accounting are not covered; the parser is an assumed contract."),
     "explanation": "C13: harness contracts on read_start_line/on_url/free_connection, find_url_handler, check_http_version.",
     "not_decided": ["vendored parser", "header phase", "segmentation of the request"],
+}
+PROPERTY_META["C15"] = {
+    "level": "proof",
+    "level_text": ("Allocation failure, per function and for EVERY subset of failing allocations (a superset of single-fault enumeration): the response builders of response.c leak nothing, never send a response without id / payload and own the "
+                   "result exactly once; the allocator's accounting stays exact when the OS allocation fails; subscription-table growth that fails changes nothing; an authenticate whose user-name copy fails changes nothing."),
+    "level_note": ("Covered functions only (response.c, alloc.c, add_fetch_to_state, handle_authentication). The handlers of element.c / fetch.c / router.c under allocation failure are in the thorough tier or not covered; cJSON's own behaviour "
+                   "under failure is the executable model's (a failed AddItemToObject does not take ownership). 'Keeps serving afterwards' at daemon level is outside per-function contracts."),
+    "explanation": "C15: the harness contracts of the listed units with every allocation (malloc/calloc and every cJSON creator / key copy) allowed to fail independently; cbmc --memory-leak-check and the model's live-node counter as oracles.",
+    "not_decided": ["element/fetch/router handlers under allocation failure (quick tier)", "heap-cap induced failures at daemon level"],
 }
 PENDING = {}
